@@ -58,6 +58,12 @@ for push_back(s.substr(pos, n)); std::find_if over rbegin()..rend() with the nam
 over begin()..end() for "first match" (accepted only if the constructor stores one entry per name); std::any_of for
 hasParam.  Floors count tokeniser functions, not push sites.
 
+More equivalent shapes (refactor batch 5): `i != bound` loops walked upwards by 1 whose start is known not to exceed the
+bound (pointer walks `cur != end` over [av + 1, av + ac)); a count update that is skipped only on `howMany == 0`; a
+tokeniser that hands its arguments to a worker in the same file (tokenize -> tokenizeFrom(str, start, ...), the scan may
+start at a caller-given offset); cuts written as assign(src, 0, pos) / std::string(src, pos) / std::string(first, last) on
+iterators found by std::find, a delimiter kept in a const array, and the remainder handed on as a returned offset.
+
 Helpers: file-local / private helpers are followed with parameters mapped (FileName position helpers are
 summarised into the typestate, a prefix-length index loop stands for std::mismatch, a lookup helper that scans
 from the back and returns the first hit stands for last-duplicate-wins, name=value cutting may live in a helper).
@@ -217,8 +223,17 @@ class FnX(Normalizer):
             if k == 'VarDecl':
                 ty = n.get('type', {})
                 init = tu.kids(n)[0] if n.get('init') and tu.kids(n) else None
+                dpos = self.pos_of(n)
+                if dpos is None and init is not None:
+                    # `T a = .., b = ..;`: clang's CFG splits the statement into synthetic ones; the initialiser is an element
+                    dpos = self.g.where(init.get('id')) if self.g is not None else None
+                    if dpos is None and self.g is not None:
+                        for y in tu.walk(init):
+                            w = self.g.where(y.get('id'))
+                            if w is not None and (dpos is None or w[0] == dpos[0] and w[1] > dpos[1]):
+                                dpos = w
                 self.vars[n['id']] = {'name': n.get('name'), 'ct': ty.get('desugaredQualType') or ty.get('qualType'),
-                                      'defs': [('init', init, self.pos_of(n))] if init is not None else [],
+                                      'defs': [('init', init, dpos)] if init is not None else [],
                                       'escaped': False, 'param': False, 'init': init}
         for n in tu.walk(body):
             if n.get('kind') != 'DeclRefExpr':
@@ -314,6 +329,14 @@ class FnX(Normalizer):
                 return ('field', ('this',), e.get('name'))
         if k == 'CXXThisExpr':
             return ('this',)
+        if k == 'CXXOperatorCallExpr' and last_name(tu.sd(e).get('q')) in ('operator->', 'operator*') and len(tu.kids(e)) == 2:
+            inner = self.objkey(tu.kids(e)[1])
+            if inner[0] == 'var':
+                return ('deref', inner)
+        if k == 'UnaryOperator' and e.get('opcode') == '*' and tu.kids(e):
+            inner = self.objkey(tu.kids(e)[0])
+            if inner[0] == 'var':
+                return ('deref', inner)
         return ('expr', e.get('id'))
 
     def is_copy_ctor(self, e):
@@ -364,7 +387,7 @@ class FnX(Normalizer):
                 return self.bind[d]
             init = self.single_init(d)
             v = self.vars.get(d)
-            if init is not None and self.at is not None and (is_int_ct(v['ct']) or '__normal_iterator' in (v['ct'] or '')):
+            if init is not None and self.at is not None and (is_int_ct(v['ct']) or '__normal_iterator' in (v['ct'] or '') or (v['ct'] or '').rstrip().endswith('*')):
                 a = v['defs'][0][2]
                 if a is not None:
                     save = self.at
@@ -408,6 +431,9 @@ class FnX(Normalizer):
                 return a + b if name == 'operator+' else a - b
             if name == 'operator-' and len(ks) == 2 and '__normal_iterator' in (tu.sd(ks[0]).get('ct') or ''):
                 return self.poly(ks[0]) - self.poly(ks[1])
+            if name in ('operator==', 'operator!=', 'operator<', 'operator<=', 'operator>', 'operator>=') and len(ks) == 2 and \
+                    all('__normal_iterator' in (tu.sd(tu.strip(y, casts=True)).get('ct') or tu.sd(y).get('ct') or '') for y in ks):
+                return self.bool_value(('rel', Rel.make(self.poly(ks[0]), name[8:], self.poly(ks[1]))))
             return Poly.atom(('expr', n.get('id')))
         if k == 'CallExpr':
             q = sd.get('q')
@@ -718,6 +744,32 @@ class TokenFn:
         return ('substr', src, p, alts, e, alias, at)
 
 
+def token_worker(tu, f, depth=0):
+    """the function that actually pushes the tokens: f itself, or the function in the same file it hands its string, its
+    delimiter and its token vector to (tokenize -> tokenizeFrom(str, 0, delim, tokens))"""
+    if depth > 2:
+        return f
+    tf = TokenFn(tu, f)
+    if any(True for _ in tf.pushes()):
+        return f
+    x = tf.x
+    cands = []
+    for b, i, n in x.g.stmts():
+        if n.get('kind') != 'CallExpr':
+            continue
+        hf = tu.callee_fn(n)
+        if hf is None or hf['dep'] or tu.cfg(hf) is None or hf.get('rec') or tu.fn_file(hf) != tu.fn_file(f):
+            continue
+        passed = [x.var_of(a)[0] for a in tu.kids(n)[1:]]
+        vec = [p['id'] for p in f.get('params', []) if 'vector' in p['ct']]
+        strs = [p['id'] for p in f.get('params', []) if 'basic_string' in p['ct'] and 'vector' not in p['ct']]
+        if strs and all(sv in passed for sv in strs[:1]) and (not vec or all(vv in passed for vv in vec)):
+            cands.append(hf)
+    if len(cands) == 1:
+        return token_worker(tu, cands[0], depth + 1)
+    return f
+
+
 def check_tokens(ctx, tu, qnames):
     R2, R7 = 'R-C18-2', 'R-C18-7'
     ctx.describe(R2, 'token filter: every branch condition on the length n of a token that dominates its push_back is '
@@ -728,6 +780,7 @@ def check_tokens(ctx, tu, qnames):
     nf = 0
     for q in qnames:
         fs = [f for f in tu.fns(q=q) if not f['dep'] and tu.cfg(f) is not None]
+        fs = [token_worker(tu, f) for f in fs]
         for f in fs:
             before = n2
             tf = TokenFn(tu, f)
@@ -1098,6 +1151,11 @@ def check_extent(ctx, tu, tf, rule, inst, key, call, pos, extra, src, p, n, at, 
                     continue
                 q = x.poly_at(node, dpos)
                 if q.as_const() == 0:
+                    continue
+                qa = q.as_atom()
+                if isinstance(qa, tuple) and qa[0] == 'var' and qa[1] in x.params and is_int_ct(x.vars[qa[1]]['ct']) and \
+                        not x.vars[qa[1]]['defs']:
+                    notes.append('the scan starts at the offset `%s` given by the caller' % qa[2])
                     continue
                 hit = None
                 for a in q.atoms(deep=False):
@@ -1989,7 +2047,8 @@ class CountLoop:
         cn = deciding_cond(tu, hb, g)
         self.cond = cn
         nf = x.cond_at(cn, True, x.pos_of(cn))
-        if nf[0] != 'rel' or nf[1].op != '>=':
+        self.ne_form = nf[0] == 'rel' and nf[1].op == '!='
+        if nf[0] != 'rel' or nf[1].op not in ('>=', '!='):
             self.why = 'loop condition `%s` is not an ordering comparison' % tu.show(cn)
             return
         self.rel = nf[1]
@@ -2030,6 +2089,30 @@ class CountLoop:
             self.why = 'loop condition `%s` is not linear in the index' % tu.show(cn)
             return
         coef, rest = lin
+        if self.ne_form:
+            # i != B, walked upwards by 1 from init: the same iterations as i < B provided init <= B is known on entry
+            bound = -rest if coef == 1 else rest
+            okb = False
+            if self.step == 1:
+                dist = bound - self.init
+                if dist.as_int() is not None and dist.as_int() >= 0:
+                    okb = True
+                for gc, truth, blk in x.guards((header, 0)):
+                    if blk.id in self.body or blk.id == header:
+                        continue
+                    gnf = x.cond_at(gc, truth, x.pos_of(gc))
+                    for lf in (rels_of(gnf) or []):
+                        if lf is not None and lf[0] == 'rel' and lf[1].op == '>=':
+                            ab = about(lf[1].p, dist)
+                            if ab is not None and ab[0] > 0 and Fraction(-ab[1]) / ab[0] >= 0:
+                                okb = True
+            if not okb:
+                self.why = 'loop condition `%s`: cannot see that the index starts at or below the bound it is compared with' % tu.show(cn)
+                return
+            self.bound_excl = bound
+            self.ascending_test = True
+            self.ok = True
+            return
         # coef*i + rest >= 0
         if coef == -1:
             self.bound_excl = rest + 1          # i <= rest
@@ -2251,6 +2334,84 @@ def calls_in(x, names, rec_prefix=None):
 # ====================================================================================================
 #  R-C18-5  argument removal
 # ====================================================================================================
+def bypass_only_when_zero(tu, x, dpos, HM):
+    """every path from the entry to the exit that does not execute the element at dpos takes a branch edge on which
+    HM == 0 holds (nothing to remove on it)"""
+    g = x.g
+    zero = Rel.make(HM, '==', 0)
+    seen = {g.entry}
+    st = [g.entry]
+    while st:
+        b = st.pop()
+        if b == dpos[0]:
+            continue
+        blk = g.blocks[b]
+        for si, s_ in enumerate(blk.succ):
+            if s_ is None:
+                continue
+            if blk.cond is not None and len(blk.succ) == 2:
+                c = deciding_cond(tu, blk, g)
+                nf = x.cond_at(c, si == 0, x.pos_of(c)) if c is not None else None
+                if nf is not None and any(lf is not None and lf[0] == 'rel' and lf[1] == zero for lf in (rels_of(nf) or [])):
+                    continue        # nothing is removed on this edge
+            if s_ == g.exit:
+                return False
+            if s_ not in seen:
+                seen.add(s_)
+                st.append(s_)
+    return True
+
+
+def skips_positive_count(tu, x, dpos, HM):
+    """message if some branch edge that leads to the exit without the count update is taken for a positive count
+    (`if (howMany <= 1) return;`), else None"""
+    g = x.g
+    for blk in g.blocks.values():
+        if blk.cond is None or len(blk.succ) != 2 or blk.id == dpos[0]:
+            continue
+        c = deciding_cond(tu, blk, g)
+        for si, s_ in enumerate(blk.succ):
+            if s_ is None or c is None:
+                continue
+            # does this edge lead to the exit without the update?
+            seen, st = {s_}, [s_]
+            reach_exit = s_ == g.exit
+            while st and not reach_exit:
+                b = st.pop()
+                if b == dpos[0]:
+                    continue
+                for t in g.blocks[b].succ:
+                    if t == g.exit:
+                        reach_exit = True
+                    elif t is not None and t not in seen:
+                        seen.add(t)
+                        st.append(t)
+            if not reach_exit or dpos[0] in seen and False:
+                continue
+            if dpos[0] in _reach_blocks(g, s_):
+                continue        # the update can still follow on this edge
+            nf = x.cond_at(c, si == 0, x.pos_of(c))
+            for lf in (rels_of(nf) or []):
+                if lf is None or lf[0] != 'rel':
+                    continue
+                ab = about(lf[1].p, HM)
+                if ab is None:
+                    continue
+                k, cc = ab
+                admits = None
+                if lf[1].op == '>=':
+                    admits = True if k > 0 else math.floor(Fraction(cc) / -k) >= 1
+                elif lf[1].op == '!=':
+                    admits = True
+                elif lf[1].op == '==':
+                    v = Fraction(-cc) / k
+                    admits = v >= 1
+                if admits:
+                    return ('`%s` leaves the function without moving the arguments and without updating the count although `%s` can be '
+                            'positive there' % (tu.show(c), HM.show()))
+    return None
+
+
 def check_remove_args(ctx, tu):
     R = 'R-C18-5'
     n = 0
@@ -2344,8 +2505,11 @@ def check_remove_args(ctx, tu):
                 delta = Poly.const(1 if node.get('opcode') == '++' else -1)
             if dpos[0] in lp.body or dpos[0] == lp.header:
                 bad.append(('count-update', 'the argument count is changed inside the shift loop'))
-            elif not x.g.postdominates(dpos, (x.g.entry, 0)):
-                bad.append(('count-update', 'the argument count is not updated on every path'))
+            elif not x.g.postdominates(dpos, (x.g.entry, 0)) and skips_positive_count(tu, x, dpos, HM):
+                bad.append(('count-update', skips_positive_count(tu, x, dpos, HM)))
+            elif not x.g.postdominates(dpos, (x.g.entry, 0)) and not bypass_only_when_zero(tu, x, dpos, HM):
+                und.append('the argument count is not updated on every path, and the paths that skip the update are not '
+                           'limited to `%s == 0`' % HM.show())
             elif delta is None or delta != -HM:
                 bad.append(('count-update', 'the argument count changes by `%s`, expected `%s`'
                             % (delta.show() if delta is not None else '?', (-HM).show())))
@@ -2579,21 +2743,29 @@ def check_arglist(ctx, tu):
             if len(ks) != 1:
                 break
             e = x.peel(ks[0])
-        if e is None or e.get('kind') != 'ArraySubscriptExpr' or x.var_of(tu.kids(e)[0])[0] != ps[1]['id']:
-            und.append('the pushed element is not av[index]')
+        AVP = Poly.atom(('var', ps[1]['id'], ps[1]['name']))
+        addr = None
+        if e is not None and e.get('kind') == 'ArraySubscriptExpr' and x.var_of(tu.kids(e)[0])[0] == ps[1]['id']:
+            addr = AVP + x.poly_at(tu.kids(e)[1], pos)
+        elif e is not None and e.get('kind') == 'UnaryOperator' and e.get('opcode') == '*':
+            addr = x.poly_at(tu.kids(e)[0], pos)          # *p with p walking over av + k
+        if addr is None:
+            und.append('the pushed element is not av[index] / *pointer-into-av')
         else:
-            ix = x.poly_at(tu.kids(e)[1], pos)
-            off = (ix - Poly.atom(lp.ivar)).as_int()
-            if off is None:
-                und.append('the pushed element is av[%s]' % ix.show())
+            off = addr - Poly.atom(lp.ivar)
+            if lp.ivar in off.atoms(deep=True):
+                und.append('the pushed element is at `%s`' % addr.show())
             elif lp.step != 1 or not lp.ascending_test:
                 bad.append(('order', 'the arguments are not stored in ascending order (step %s)' % lp.step))
             else:
-                first, last = lp.init + off, lp.bound_excl + off
-                if first != Poly.const(1):
-                    bad.append(('range-start', 'the first stored argument is av[%s], expected av[1] (av[0] is the program name)' % first.show()))
-                if last != AC:
-                    bad.append(('range-end', 'arguments are stored up to av[%s), expected up to av[%s)' % (last.show(), AC.show())))
+                first, last = lp.init + off - AVP, lp.bound_excl + off - AVP
+                if first.as_int() is None and AVP.atoms()[0] in first.atoms(deep=True):
+                    und.append('cannot relate the first stored element `%s` to av' % (lp.init + off).show())
+                else:
+                    if first != Poly.const(1):
+                        bad.append(('range-start', 'the first stored argument is av[%s], expected av[1] (av[0] is the program name)' % first.show()))
+                    if last != AC:
+                        bad.append(('range-end', 'arguments are stored up to av[%s), expected up to av[%s)' % (last.show(), AC.show())))
         if bad:
             for k, m in bad:
                 ctx.violation(R, inst, m, loc, key=key + k)
@@ -4950,6 +5122,103 @@ def check_url_lookup(ctx, tu, sch=None):
 # ====================================================================================================
 #  R-C18-8 (PseudoURL)  cut points of the constructor
 # ====================================================================================================
+def literal_of(tu, x, e):
+    """(text for messages, length) of a delimiter argument: a string / character literal, or a const array / char
+    variable initialised with one"""
+    e = tu.strip(e, casts=True)
+    for _ in range(4):
+        if e is None:
+            return None
+        k = e.get('kind')
+        if k == 'StringLiteral':
+            lit = e.get('value', '""')
+            try:
+                return lit, len(bytes(lit[1:-1], 'utf-8').decode('unicode_escape'))
+            except Exception:
+                return None
+        if k == 'CharacterLiteral':
+            return repr(chr(int(e.get('value')))), 1
+        if k == 'DeclRefExpr':
+            d = tu.node(e.get('referencedDecl', {}).get('id'))
+            if d is None or d.get('kind') != 'VarDecl' or not (d.get('type', {}).get('qualType', '').startswith('const ')):
+                return None
+            ks = tu.kids(d)
+            e = tu.strip(ks[0], casts=True) if ks else None
+            continue
+        return None
+    return None
+
+
+def find_cuts(tu, x):
+    """[(decl id, var info, literal text, literal length, source key, V, NOTFOUND, search call, kind)] for every local that is
+    set once to the position of a literal delimiter: s.find(lit) (index) or std::find(s.begin(), s.end(), 'c') (iterator)"""
+    out = []
+    for d, v in sorted(x.vars.items(), key=lambda kv: kv[1]['name'] or ''):
+        init = x.single_init(d)
+        if init is None:
+            continue
+        e = x.peel(init)
+        if e is None:
+            continue
+        V = Poly.atom(('var', d, v['name']))
+        if is_int_ct(v['ct']) and e.get('kind') == 'CXXMemberCallExpr' and last_name(tu.sd(e).get('q')) in FIND_DELIM and \
+                (tu.sd(e).get('q') or '').startswith('std::basic_string<'):
+            s, obj, args = tu.call_parts(e)
+            real = [a for a in args if a.get('kind') != 'CXXDefaultArgExpr']
+            lt = literal_of(tu, x, real[0]) if len(real) == 1 else None
+            if lt is not None:
+                out.append((d, v, lt[0], lt[1], x.objkey(obj), V, P_NPOS, e, 'index'))
+        elif e.get('kind') == 'CallExpr' and tu.sd(e).get('q') == 'std::find' and len(tu.kids(e)) == 4:
+            a = tu.kids(e)[1:]
+            lt = literal_of(tu, x, a[2])
+            pos = v['defs'][0][2]
+            b_, e_ = x.poly_at(a[0], pos), x.poly_at(a[1], pos)
+            ba = b_.as_atom()
+            if lt is not None and isinstance(ba, tuple) and ba[0] == 'begin' and e_ == b_ + Poly.atom(('size', ba[1])):
+                out.append((d, v, lt[0], lt[1], ba[1], V, e_, e, 'iter'))
+    return out
+
+
+def cut_uses(tu, x, src, kind):
+    """expressions that take a part of the string `src`:
+       ('range', (start, length | None))   src.substr(a[, n]) / X.assign(src, a[, n]) / std::string(src, a[, n])
+       ('iters', (first, last))            std::string(first, last) / X.assign(first, last)
+       ('offset', (value,))                a position returned / passed on as the start of the remainder"""
+    g = x.g
+    for b, i, nd in g.stmts():
+        pos = (b.id, i)
+        k = nd.get('kind')
+        q = tu.sd(nd).get('q') or ''
+        if k == 'CXXMemberCallExpr' and q.startswith('std::basic_string<') and last_name(q) == 'substr':
+            s, obj, args = tu.call_parts(nd)
+            if x.objkey(obj) != src:
+                continue
+            ps = [x.poly_at(a, pos) for a in args if a.get('kind') != 'CXXDefaultArgExpr']
+            if len(ps) == 1:
+                yield nd, pos, 'range', (ps[0], None)
+            elif len(ps) == 2:
+                yield nd, pos, 'range', (ps[0], None if ps[1] == P_NPOS else ps[1])
+            continue
+        args = None
+        if k == 'CXXMemberCallExpr' and q.startswith('std::basic_string<') and last_name(q) == 'assign':
+            args = tu.call_parts(nd)[2]
+        elif k in ('CXXConstructExpr', 'CXXTemporaryObjectExpr') and q.startswith('std::basic_string<'):
+            args = [a for a in tu.kids(nd)]
+        if args is not None:
+            real = [a for a in args if a.get('kind') != 'CXXDefaultArgExpr' and 'allocator' not in (tu.sd(a).get('ct') or '')]
+            if len(real) in (2, 3) and 'basic_string' in (tu.sd(tu.strip(real[0], casts=True)).get('ct') or '') and \
+                    '__normal_iterator' not in (tu.sd(tu.strip(real[0], casts=True)).get('ct') or '') and x.objkey(real[0]) == src:
+                st_ = x.poly_at(real[1], pos)
+                ln_ = x.poly_at(real[2], pos) if len(real) == 3 else None
+                yield nd, pos, 'range', (st_, None if ln_ is None or ln_ == P_NPOS else ln_)
+            elif len(real) == 2 and all('__normal_iterator' in (tu.sd(tu.strip(a, casts=True)).get('ct') or tu.sd(a).get('ct') or '')
+                                        for a in real):
+                yield nd, pos, 'iters', (x.poly_at(real[0], pos), x.poly_at(real[1], pos))
+            continue
+        if kind == 'index' and k == 'ReturnStmt' and tu.kids(nd) and is_int_ct(tu.sd(tu.strip(tu.kids(nd)[0], casts=True)).get('ct')):
+            yield nd, pos, 'offset', (x.poly_at(tu.kids(nd)[0], pos),)
+
+
 def check_url_cuts(ctx, tu):
     R = 'R-C18-8'
     n = 0
@@ -4973,78 +5242,72 @@ def check_url_cuts(ctx, tu):
     for f in fns:
         x = FnX(tu, f)
         file, fname = tu.fn_file(f), fn_name(f)
-        # every find(<literal>) whose result is kept in a local that is set once
-        for d, v in sorted(x.vars.items(), key=lambda kv: kv[1]['name'] or ''):
-            init = x.single_init(d)
-            if init is None or not is_int_ct(v['ct']):
-                continue
-            e = x.peel(init)
-            if e is None or e.get('kind') != 'CXXMemberCallExpr' or last_name(tu.sd(e).get('q')) not in FIND_DELIM or \
-                    not (tu.sd(e).get('q') or '').startswith('std::basic_string<'):
-                continue
-            s, obj, args = tu.call_parts(e)
-            real = [a for a in args if a.get('kind') != 'CXXDefaultArgExpr']
-            if len(real) != 1:
-                continue
-            a0 = tu.strip(real[0], casts=True)
-            if a0.get('kind') == 'StringLiteral':
-                lit = a0.get('value', '""')
-                try:
-                    dl = len(bytes(lit[1:-1], 'utf-8').decode('unicode_escape'))
-                except Exception:
-                    continue
-            elif a0.get('kind') == 'CharacterLiteral':
-                lit = repr(chr(int(a0.get('value'))))
-                dl = 1
-            else:
-                continue
-            src = x.objkey(obj)
-            V = Poly.atom(('var', d, v['name']))
+        for cut in find_cuts(tu, x):
+            d, v, lit, dl, src, V, NOTFOUND, e, kind = cut
             n += 1
             inst = '%s: cut at `%s` = %s' % (fname, v['name'], tu.show(e))
             key = '%s|%s|%s|cut-%s' % (R, file, fname, re.sub(r'[^A-Za-z0-9:/=]', '', lit))
             bad, und, seen = [], [], []
-            for b, i, nd in x.g.stmts():
-                if nd.get('kind') != 'CXXMemberCallExpr' or last_name(tu.sd(nd).get('q')) != 'substr':
+            vatom = ('var', d, v['name'])
+            for nd, pos, form, ps in cut_uses(tu, x, src, kind):
+                if not any(vatom in p.atoms(deep=True) for p in ps if p is not None):
                     continue
-                s2, obj2, args2 = tu.call_parts(nd)
-                pos = (b.id, i)
-                ps = [x.poly_at(a, pos) for a in args2 if a.get('kind') != 'CXXDefaultArgExpr']
-                if not any(('var', d, v['name']) in p.atoms(deep=True) for p in ps):
-                    continue
-                if x.objkey(obj2) != src:
-                    und.append('`%s` cuts another string at a position found in `%s`' % (tu.show(nd), show_key(src)))
-                    continue
-                # the cut must be reached only when the delimiter was found
                 found = False
                 for cn, truth, blk in x.guards(pos):
                     nf = x.cond_at(cn, truth, x.pos_of(cn))
                     for lf in (rels_of(nf) or []):
-                        if lf[0] == 'rel' and lf[1] == Rel.make(V, '!=', P_NPOS):
+                        if lf is not None and lf[0] == 'rel' and lf[1] == Rel.make(V, '!=', NOTFOUND):
                             found = True
-                if not found and not (len(ps) == 2 and ps[0].as_int() == 0 and (ps[1] - V).as_int() == 0):
-                    # (the head cut substr(0, pos) is well defined for pos == npos: the whole string)
-                    bad.append(('unguarded', '`%s` is evaluated although `%s` may be npos' % (tu.show(nd), v['name'])))
-                    continue
-                if len(ps) == 2:
-                    if ps[0].as_int() == 0:
-                        c = (ps[1] - V).as_int()
-                        if c is None:
+                BEGIN = Poly.atom(('begin', src))
+                END = BEGIN + Poly.atom(('size', src))
+                # normalise every form to (start, end) offsets relative to the cut position; None = open
+                head_c = tail_c = None
+                if form == 'range':            # (start index, length or None)
+                    st_, ln_ = ps
+                    if st_.as_int() == 0 and ln_ is not None:
+                        head_c = (ln_ - V).as_int()
+                        if head_c is None:
                             und.append('length of `%s`' % tu.show(nd))
-                        elif c != 0:
-                            bad.append(('head', 'the part before the delimiter is `%s`: it ends %+d characters from the delimiter' % (tu.show(nd), c)))
-                        else:
-                            seen.append('head [0, %s)' % v['name'])
+                            continue
+                    elif ln_ is None:
+                        tail_c = (st_ - V).as_int()
+                        if tail_c is None:
+                            und.append('start of `%s`' % tu.show(nd))
+                            continue
                     else:
-                        und.append('`%s` is not the part before the delimiter' % tu.show(nd))
-                elif len(ps) == 1:
-                    c = (ps[0] - V).as_int()
-                    if c is None:
-                        und.append('start of `%s`' % tu.show(nd))
-                    elif c != dl:
+                        und.append('`%s` is neither the part before nor the part behind the delimiter' % tu.show(nd))
+                        continue
+                elif form == 'iters':          # (first iterator, last iterator)
+                    b_, e_ = ps
+                    if b_ == BEGIN:
+                        head_c = (e_ - V).as_int()
+                        if head_c is None:
+                            und.append('end of `%s`' % tu.show(nd))
+                            continue
+                    elif e_ == END:
+                        tail_c = (b_ - V).as_int()
+                        if tail_c is None:
+                            und.append('start of `%s`' % tu.show(nd))
+                            continue
+                    else:
+                        und.append('`%s` is neither the part before nor the part behind the delimiter' % tu.show(nd))
+                        continue
+                elif form == 'offset':         # V + c handed on as the start of the remainder
+                    tail_c = (ps[0] - V).as_int()
+                    if tail_c is None or tail_c < 1:
+                        continue
+                if head_c is not None:
+                    if head_c != 0:
+                        bad.append(('head', 'the part before the delimiter is `%s`: it ends %+d characters from the delimiter' % (tu.show(nd), head_c)))
+                    else:
+                        seen.append('head [0, %s)' % v['name'])
+                if tail_c is not None:
+                    if not found:
+                        bad.append(('unguarded', '`%s` is evaluated although `%s` may say "not found"' % (tu.show(nd), v['name'])))
+                    elif tail_c != dl:
                         bad.append(('tail', 'the part behind the delimiter %s starts at `%s`, i.e. %+d from it; the delimiter is %d character(s) '
-                                    'long: %s' % (lit, ps[0].show(), c, dl,
-                                                  'part of the delimiter is kept' if c < dl else 'the first character(s) of the remainder are lost')))
+                                    'long: %s' % (lit, (V + tail_c).show(), tail_c, dl,
+                                                  'part of the delimiter is kept' if tail_c < dl else 'the first character(s) of the remainder are lost')))
                     else:
                         seen.append('tail [%s + %d, end)' % (v['name'], dl))
             loc = tu.loc(e)
@@ -5054,11 +5317,11 @@ def check_url_cuts(ctx, tu):
             elif und:
                 for u in und:
                     ctx.undecided(R, inst, u, loc)
-            elif len(seen) < 2:
+            elif not any(s_.startswith('head') for s_ in seen) or not any(s_.startswith('tail') for s_ in seen):
                 ctx.undecided(R, inst, 'expected a head and a tail cut at this delimiter, found %s' % seen, loc)
             else:
                 lits_ok.add(lit)
-                ctx.ok(R, inst, ', '.join(seen), loc)
+                ctx.ok(R, inst, ', '.join(sorted(set(seen))), loc)
             lits_seen.add(lit)
     # ---- by role: the constructor (or a helper of it) must cut type://rest and name=value somewhere
     for lit, what in (('"://"', 'the type from the rest at "://"'), ("'='", "name=value at the first '='")):
